@@ -32,7 +32,9 @@ pub(crate) fn as_f64(value: &Value, lossy: bool) -> Option<f64> {
     macro_rules! checked {
         ($expr:expr, $ty:ty) => {{
             let rv = $expr as f64;
-            return if lossy || rv as $ty == $expr {
+            // `as` saturates, so a value that rounds up to 2^N would pass
+            // the round trip check through the saturated maximum.
+            return if lossy || (rv < <$ty>::MAX as f64 && rv as $ty == $expr) {
                 Some(rv)
             } else {
                 None
